@@ -979,9 +979,25 @@ def c04(W, replay=None):
     scen = []
     if not replay:
         design_mc(W, "c04-design", ["ExchangeBound", "TokensFromOwnLogin"], Kinds='{"app","callback"}', MaxCode=3 if W.tier == "thorough" else 2)
-        scen = family(W, "C04") + attacker_family(W, 600 if W.tier == "thorough" else 150) + parallel_family(W, 400 if W.tier == "thorough" else 40)
+        scen = family(W, "C04") + c04_fault_replay() + attacker_family(W, 600 if W.tier == "thorough" else 150) + parallel_family(W, 400 if W.tier == "thorough" else 40)
         scen += family(W, "C18", "quick") + same_client_family(W) + discovery_family(W) + dup_chain_family(W) + shared_callback_family(W) + decoy_family(W) + secret_rotation_family(W) + env_std(W) + debug_family(W)
     return sys_pipeline("C04", W, scen, None, ASSUME_SYS + ["the simulated token endpoint logs exactly what it was sent and is strict (RFC 6749/7636)"], replay=replay)
+
+
+def c04_fault_replay():
+    """Every store call of an otherwise successful callback fails once (a store error; with Redis also the first / second
+    Redis command of the call, or an error after the command took effect); then the browser goes on, and the callback is
+    replayed with the same cookie, state and code. A session that holds tokens has no usable login state left."""
+    res = []
+    for st in ("memory", "redis"):
+        for gate in range(0, 6):
+            for fault in (("before", "after", "cmd1", "cmd2") if st == "redis" else ("before", "after")):
+                cb = {"op": "check", "b": "b1", "f": "f1", "kind": "callback", "cookie": "jar", "st": "jar", "code": "jar", "qshape": "ok", "ans": dict(ANS)}
+                steps = [app("b1", "f1", cookie="none"), {"op": "authz", "b": "b1", "sid": 1},
+                         dict(cb, dirs={str(gate): {"fault": fault}}), app("b1", "f1"), dict(cb), app("b1", "f1"),
+                         {"op": "authz", "b": "b1", "sid": 1}, dict(cb, code="jar"), app("b1", "f1")]
+                res.append({"id": "c04fault/%s/g%d-%s" % (st, gate, fault), "cfg": {"filters": [dict(F1, store=st)]}, "steps": steps, "tags": ["faults"]})
+    return res
 
 
 def c05_fault_sweep(fam):
